@@ -349,3 +349,49 @@ PROPS["C13"] = {
     ),
     "note": "No line wider than the terminal, 'help <path>' == '<path> --help', and success for every width are numeric/text and not decided.",
 }
+
+
+# ---- round 3 (second seeding round): deciding methods added per property; appended to "technique" / "text" by the loop below
+ROUND3 = {
+    "C01": ("path totality of the after-separator arm (every drawn token reaches the positional parse once the flag edges are removed), slice-shape check of the attached value, deep read-only effect analysis of the Args accessors, scratch-reset rule",
+            "(R3, extended) with the separator flag cleared every drawn token reaches the positional parse; (R8) the value attached with '=' is the open-ended remainder after the first '='; (R9) no accessor of Args mutates the value maps; (R10) = C05-R1."),
+    "C02": ("feasible-path enumeration with flag-condition tracking for constant indices into freshly drawn tokens, reaching-definition order of the value-misuse test",
+            "(R7) = last clause of C01-R3; (R8) a constant index into a value just drawn from the token list is behind a non-emptiness test on every feasible path; (R9) no None assignment reaches the value-given-to-a-flag test except under a non-string sentinel; (R10) = C01-R6."),
+    "C03": ("handler-class table of the trial parse, receiver check of the registration predicates",
+            "(R5, extended) the registration markers are asked of the command being added; (R11) the trial parse of a default is caught for the cannot-parse class only."),
+    "C04": ("getter/setter field agreement, result pass-through check on every return, per-attribute memo-key cover",
+            "(R8) PreHandleEvent.is_handled reads exactly the field handled() writes; (R9) _do_handle and CallbackHandler.handle return the handler's result unchanged; (R10) = C17-R4 for the trace's snippet memo."),
+    "C05": ("statelessness of the pass-through Command.parse", "(R4) Command.parse stores nothing and returns the parser's result of this call."),
+    "C06": ("minimal guard set of each marker write", "(R5, extended) each argument marker is set under its own predicate and under no further test of the element; the ordering checks may sit in a helper called before the first write."),
+    "C07": ("must-call analysis over the constructor chain incl. helpers, raise-before-write atomicity of set_default",
+            "(R8) every constructor chain calls every unconditional validator of its hierarchy on every path; (R9) a rejected set_default stores nothing; (R10) = C02-R4."),
+    "C08": ("call-site constant check of a parameterised escape set, post-dominance of the token append",
+            "(R4, extended) an escape set passed as a parameter is the constant delimiter set at its default and at every call site; (R5) every scanned token is appended on every path."),
+    "C09": ("dominance of command resolution by the I/O construction, 8-row truth table of the decoration decision by abstract evaluation of the constructor's CFG (boolean locals carried)",
+            "(R6, extended) the IO setters reach both outputs on every path; (R9) the I/O built from the command line precedes resolve_command; (R10) Output() decorates iff forced, or supported and not disabled; (R11) = lookahead clause of C01-R4; (R12) = C02-R2."),
+    "C10": ("post-dominance of both forwarding calls in the IO setters", "(R5) IO.set_quiet / set_verbosity reach both outputs on every path (= C09-R6)."),
+    "C11": ("statement order of indentation vs formatting, sibling delegation signatures of the IO write/error twins",
+            "(R7) lines are prefixed before the formatter runs; (R8) IO.error_* delegates exactly like IO.write_*."),
+    "C12": ("post-dominance of the carry-over append per iteration, rebuild-loop dominance for the all-events form, control dependence of object state on has_listeners()",
+            "(R4, extended) the rebuild carries over every stored listener; (R6, extended) get_listeners() rebuilds every missing entry; (R9) listener presence is never stored outside the dispatcher."),
+    "C13": ("linear-form evaluation of the wrap width against the prefixes added outside the wrapper, read-only effect analysis of help renders",
+            "(R6) the width handed to textwrap subtracts every `' ' * n` prefix put in front of a wrapped line outside the wrapper; (R7) = C17-R5 for the help pages."),
+    "C14": ("post-dominance of running maxima per row iteration, order of strip vs emptiness test, in-place `+=` through aliases in the effect engine",
+            "(R1, extended) `x += [...]` on an alias of a style field is a mutation; (R4) running column maxima are updated for every row; (R5) a border line is tested for emptiness after stripping."),
+    "C15": ("unit analysis (terminal rows vs logical lines: reaching definitions used in both units), keyword check of every re-print, process-wide container ownership, record/print path pairing",
+            "(R4) erased sections are re-printed with indentation off; (R5) no class-level container of the I/O classes is mutated (= C17-R6); (R6) no value is used both as a number of lines and as a number of rows, and the row counter only changes incrementally - this rule found F24; (R7) recording and printing of a section's text happen on the same paths."),
+    "C16": ("lower-bound decision on every path to the step store, control independence of the throttle store from the output kind",
+            "(R1, extended) erasing a section is an overwrite-mode operation; (R6) every path to `self._step = step` passes a lower-bound decision; (R7) the constructor stores the minimum redraw interval whatever the output; (R8) = C15-R3."),
+    "C17": ("owner rule for configured values (write only under `is None`), scratch-reset rule for CellWrapper.fit and for parsers kept on a config, global-rooted effect events through callees",
+            "(R4, extended) memo-key cover per attribute; (R5, extended) the reset-before-use exemption follows same-object calls only; (R6, extended) a class-level container handed to code that mutates it; (R8) a getter never replaces a configured value by something derived from it; (R9)/(R10) = C05-R1 for CellWrapper.fit and ArgsParser.parse."),
+    "C18": ("handler-width check around the replaceable validator, taint of the blank-collapsed answer, API table (match vs search), sentinel form of the end-of-input test",
+            "(R5) the validator call sits under `except Exception`; (R6) the blank-collapsed answer does not reach the single-select candidate; (R7) the confirmation pattern is applied with re.match/fullmatch; (R8) the abort is raised under a falsiness test (streams return '' at the end, never None)."),
+    "C19": ("writer-thread ownership of the handle and stop-event fields", "(R6) code reachable from the spinner thread's target never rebinds the fields the caller joins through."),
+    "C20": ("per-attribute memo-key cover, handler check around single-line tokenising, line-splitting API table",
+            "(R8) = C17-R4; (R9) tokenising a single frame line is under a handler for tokenize.TokenError; (R10) text is cut into lines at '\\n' only."),
+}
+for _k, (_t, _x) in ROUND3.items():
+    PROPS[_k]["technique"] = PROPS[_k]["technique"] + "; round 3: " + _t
+    PROPS[_k]["text"] = PROPS[_k]["text"] + " Round 3: " + _x
+
+SOURCE_COMMITS += ["16751ae"]  # C15 fix F24: partial clear of a wrapped line
